@@ -87,3 +87,19 @@ Print Assumptions gen_headwater_indices_eq.
 Theorem gen_confluence_indices_eq : forall ds mask, wf ds -> gen_confluence_indices ds mask = confluence_indices ds mask.
 Proof. exact GenExtraEq.gen_confluence_indices_eq. Qed.
 Print Assumptions gen_confluence_indices_eq.
+
+(* core.rank, core.loop_indices and core.idxs_seq (with upstream_matrix) regenerated from the source (generated/GenCore.v,
+   tools/gen_core.py: `while` loops become fuelled Fixpoints, None = fuel used up / pop from an empty list) ARE the models;
+   Some _ also says that with the models' fuel the loops of the source end through their own exit tests *)
+From PF Require Import GenCoreRankEq GenCoreSeqEq.
+From PFG Require Import GenCore.
+Theorem gen_rank_eq : forall ds, wf ds -> gen_rank ds = Some (fst (rank ds), Z.of_nat (snd (rank ds))).
+Proof. exact GenCoreRankEq.gen_rank_eq. Qed.
+Print Assumptions gen_rank_eq.
+Theorem gen_loop_indices_eq : forall ds, wf ds -> gen_loop_indices ds = Some (loop_indices ds).
+Proof. exact GenCoreRankEq.gen_loop_indices_eq. Qed.
+Print Assumptions gen_loop_indices_eq.
+Theorem gen_idxs_seq_eq : forall ds pits, wf ds -> (0 < size ds)%nat ->
+  (forall p, In p pits -> (p < size ds)%nat /\ dsf ds p = p) -> NoDup pits -> gen_idxs_seq ds pits = Some (idxs_seq ds pits).
+Proof. exact GenCoreSeqEq.gen_idxs_seq_eq. Qed.
+Print Assumptions gen_idxs_seq_eq.
